@@ -50,6 +50,7 @@ type exec20 struct {
 	gate    chan struct{}
 	calls   int32
 	done    chan struct{} // closed when Exec returned (first call)
+	doneAt  time.Time     // when that was (read it after <-done)
 	once    sync.Once
 }
 
@@ -63,7 +64,7 @@ func newExec20(who, outcome string, open bool) *exec20 {
 
 func (e *exec20) Exec(ctx context.Context, qCtx *query_context.Context) error {
 	atomic.AddInt32(&e.calls, 1)
-	defer e.once.Do(func() { close(e.done) })
+	defer e.once.Do(func() { e.doneAt = time.Now(); close(e.done) })
 	select {
 	case <-e.gate:
 	case <-ctx.Done():
@@ -207,8 +208,9 @@ func runC20(r *Run) {
 		r.Count("sequence")
 	}
 	pool20(r)
+	thr20(r)
 
-	r.Finish("scenarios x {always_standby} x primary {answer, no answer, error} x secondary {answer, no answer, error}: A standby secondary finished first + in-time primary paused between its two signalling statements; B no standby + in-time primary paused there; C threshold passes while the primary works; D caller's context ends; E threshold counted from the start of the call; F primary fails at once and the secondary works past the threshold (the timer fires with nobody waiting on it); H the same and then the caller's context ends; each enforced on the real plugin with gated executables and the verifpoint hook and replayed as a schedule on the model; sequences of calls in one process (F/H calls one after the other on one P, or a concurrent burst of them on all Ps, then A/B calls whose primary answers 0-40 ms into a 5 s threshold), every call judged and replayed on its own; random borrow histories on the real pkg/pool timer pool against the model's pooled timer; every scenario is non-trivial")
+	r.Finish("scenarios x {always_standby} x primary {answer, no answer, error} x secondary {answer, no answer, error}: A standby secondary finished first + in-time primary paused between its two signalling statements; B no standby + in-time primary paused there; C threshold passes while the primary works; D caller's context ends; E threshold counted from the start of the call; F primary fails at once and the secondary works past the threshold (the timer fires with nobody waiting on it); H the same and then the caller's context ends; each enforced on the real plugin with gated executables and the verifpoint hook and replayed as a schedule on the model; sequences of calls in one process (F/H calls one after the other on one P, or a concurrent burst of them on all Ps, then A/B calls whose primary answers 0-40 ms into a 5 s threshold), every call judged and replayed on its own; random borrow histories on the real pkg/pool timer pool against the model's pooled timer; configured thresholds: plugins built through Init with thresholds of 1 ms .. a day (every bound in between and random ones) run in real time, the primary finishing well within the configured threshold (for thresholds >= 1.5 s: 650-1150 ms into the call, thorough also 5.2-5.7 s) or 300-450 ms after it, with a secondary that answers at once when started or released, each call judged and replayed as a timed schedule on the model, whose timer may not fire before the regenerated Gen.fallbackThreshold of the configured value; the duration the built plugin carries against Gen.fallbackThreshold for boundary and random configurations; every scenario is non-trivial")
 }
 
 // burst20 runs n concurrent calls on one fallback instance in which the primary fails at once and the
